@@ -6,8 +6,9 @@ package raft
 // in-flight futures; FSM goroutine running; snapshot-store and copy faults.
 func vh_user_restore() {
 	w := 2
-	mono := vChoose("mono", 0, 1) == 1
-	r, env := vNewRaft("L", vRaftOpts{n: 1, w: w, shaped: true, mono: mono})
+	flavour := vChoose("storeFlavour", 0, 2) // 0 plain, 1 monotonic, 2 MonotonicLogStore shim answering false
+	mono := flavour == 1
+	r, env := vNewRaft("L", vRaftOpts{n: 1, w: w, shaped: true, mono: mono, monoShim: flavour == 2})
 	vAssume(vInvBasic(r, env))
 	vAssume(vInvLog(r, env, w))
 	vMakeLeader(r, "L", 0)
